@@ -34,7 +34,7 @@ type Case struct {
 	Fam   string   `json:"fam"` // "arr" | "str"
 	M     string   `json:"m"`   // method; "length" is the property, "length()" the string method
 	Recv  any      `json:"recv"`
-	Args  []Arg    `json:"args"` // supplied arguments (omitted optionals are simply absent at the end)
+	Args  []Arg    `json:"args"`  // supplied arguments (omitted optionals are simply absent at the end)
 	Shape []string `json:"shape"` // fine argument classes (below, negative, zero, inside, =length, beyond, ...)
 	Cell  string   `json:"cell"`  // method name used for the finding key
 }
@@ -43,7 +43,7 @@ func (c *Case) String() string {
 	return callSrc(c, atoms{}, true)
 }
 
-func vArg(v V) Arg    { return Arg{K: "v", V: v} }
+func vArg(v V) Arg       { return Arg{K: "v", V: v} }
 func cArg(id string) Arg { return Arg{K: "cb", CB: id} }
 
 var arrMethods = []string{"push", "pop", "shift", "unshift", "slice", "splice", "concat", "join", "reverse", "sort",
